@@ -33,6 +33,10 @@ claim("C13", "lockset discipline: must-hold mutex dataflow at every access of sh
       "For all schedules, as a discipline any race-free implementation must have: every access of a package-level map/slice that is written on the query path is made with the package mutex held on every path (others are written only off the query path); Options.vars reads hold varsMut, writes hold its write lock; a goroutine's stores to captured variables are read by the spawner only after WaitGroup.Wait with a deferred Done, and are under a lock where instances overlap; no Query/Options state can reach a global; no write site can target document storage (not even a restored marker). Schedules are not enumerated.",
       NOTE, "DESIGN.md 2/C13")
 
+claim("C02", "structural operator-table match on the value-origin terms of each dispatch arm (operand order, operator, integer conversions), NULL-propagation guards, per-iteration path counting of the projection loop, key/alias decision table, CASE path table (go/ssa)",
+      "For every input: each of the 11 binary operators computes the reference Go operation with the left operand from expr.Left and the right from expr.Right (order free only when commutative), DIV & | ^ << >> on int64 conversions, % as math.Mod; a NULL operand returns NULL before conversion; unary - ~ ! tables; the projection loop appends exactly one projected row (or nested result) per input row and returns projection errors; output keys are the alias when non-empty else the column name, Ommit adds nothing, the output map is per-call; CASE yields the value of the first true WHEN, else ELSE, else NULL; the star copy cannot carry the <- key. Float values themselves are not computed.",
+      NOTE, "DESIGN.md 2/C02")
+
 _pending = "rule set for this property is not implemented yet in this round (see DESIGN.md section 2 for the planned structural rules)"
 for p in ["C01","C02","C03","C04","C05","C06","C07","C09","C10","C11","C12","C13","C14","C15","C16","C17","C18","C19","C20"]:
     if p not in CLAIMED:
